@@ -1,7 +1,7 @@
 #!/usr/bin/env python3
 """Evaluate every confirmed seeded mutant (/verif/seeded/<ID>-<i>/patch.diff) against the check of its property on a scratch
 copy of /repo, record the outcome in its meta.json and regenerate /verif/seeded/README.md."""
-import sys, os, glob, json, subprocess, shutil
+import sys, os, glob, json, subprocess, shutil, time
 V = os.path.dirname(os.path.dirname(os.path.abspath(__file__)))
 sys.path.insert(0, os.path.join(V, "lib"))
 import selftest, gen
@@ -14,7 +14,11 @@ for d in sorted(glob.glob(os.path.join(V, "seeded", "C*-*"))):
     if only and sid.split("-")[0] not in only and sid not in only:
         mp = os.path.join(d, "meta.json")
         if os.path.exists(mp):
-            rows.append(json.load(open(mp)) | {"id": sid})
+            for _ in range(20):     # another partition may be rewriting this file right now
+                try:
+                    rows.append(json.load(open(mp)) | {"id": sid}); break
+                except ValueError:
+                    time.sleep(0.2)
         continue
     prop = sid.split("-")[0]
     meta = json.load(open(os.path.join(d, "meta.json")))
